@@ -219,7 +219,7 @@ def run_scenario(arg):
         snap0 = dsfs.snapshot(pristine)
         out.update(refs=refs, nold=len(old_vals[0][1]), nnew=len(new_vals[0][1]), files0=sorted(snap0))
 
-        def one(k, variant, keep_data, after_failed=None):
+        def one(k, variant, keep_data, after_failed=None, rk=None):
             dsfs.restore(pristine, work)
             if after_failed is not None:
                 # fault sequence: an append that failed in call after_failed[0] came first (its debris - unreferenced part
@@ -230,7 +230,7 @@ def run_scenario(arg):
                         do_write(work, sc, sc["frame1"], sc["offsets1"], True, rec0)
                     except BaseException:        # noqa
                         pass
-            rec = dsfs.Recorder(work, fail_at=k, variant=variant, keep_data=keep_data)
+            rec = dsfs.Recorder(work, fail_at=k, variant=variant, keep_data=keep_data, fail_read_at=rk)
             raised = None
             with rec:
                 try:
@@ -239,7 +239,8 @@ def run_scenario(arg):
                     raised = "%s: %s" % (type(e).__name__, str(e)[:200])
             r = {"k": k, "variant": variant, "raised": raised, "fired": rec.fired, "ncalls": rec.n,
                  "trace": rec.trace, "kinds": rec.kinds, "bypassed": rec.bypassed, "fired_at": rec.fired_at,
-                 "after_failed": list(after_failed) if after_failed else None}
+                 "after_failed": list(after_failed) if after_failed else None,
+                 "read_k": rk, "nreads": rec.rn, "rkinds": rec.rkinds}
             def reader():
                 rr = dsfs.Recorder(work)
                 with rr:
@@ -272,7 +273,7 @@ def run_scenario(arg):
             return r
 
         if only is not None:                      # replay of one run
-            out["runs"].append(one(only[0], only[1], False, only[2] if len(only) > 2 else None))
+            out["runs"].append(one(only[0], only[1], False, only[2] if len(only) > 2 else None, only[3] if len(only) > 3 else None))
             return out
         b = one(None, "pre", True)
         out["runs"].append(b)
@@ -288,6 +289,11 @@ def run_scenario(arg):
             if hangs >= 3:          # every one of them is reported; do not spend the budget waiting for more of the same
                 out["cut_short_after_hangs"] = k
                 break
+        # READ side of the append (wave 3): the k-th open-for-reading / read call the append issues (opening the existing
+        # _metadata, parsing its footer) fails - before it has an effect, or after it was performed
+        for rk in range(1, b["nreads"] + 1):
+            for v in ("pre", "post"):
+                out["runs"].append(one(None, v, False, None, rk))
         # fault sequences: a failed append (at about 1/4, 1/2, 3/4 of the calls before _metadata) followed by a retry -
         # fault-free, and failing once more at the same call
         mdi = dsfs.md_open_index(b["trace"])
@@ -355,6 +361,7 @@ def run(ctx):
     ctx.rule = ("scenario = hive dataset (0..2 partition columns, 1..3 or 10..13 row groups, 0..2 earlier appends, codec/stats varied) + an append of 1..4 new "
                 "row groups; for EVERY k = 1..N (N = number of mkdir/open-for-write/write/close calls the fault-free append issues) and every variant "
                 "(fail before the call has an effect / after it / short write) the real append runs with the k-th call failing, then a fresh open; "
+                "plus READ-side faults: every open-for-reading / read call the append issues (existing _metadata) failing before / after it is performed; "
                 "plus fault SEQUENCES: a failed append (at 1/4, 1/2, 3/4 of the calls) followed by a retry, fault-free and failing again at the same call; "
                 "a case is (scenario, k, variant[, preceding failure]); the fault-free run of a scenario is the only trivial one")
     scs = [gen_scenario(rng, i) for i in range(nsc)]
@@ -412,11 +419,16 @@ def run(ctx):
         ctx.count("calls_per_append", (res["runs"][0]["ncalls"] // 20) * 20)
         refs = res["refs"]
         for r in res["runs"]:
-            case = {"scenario": sc, "k": r["k"], "variant": r["variant"], "after_failed": r.get("after_failed")}
+            case = {"scenario": sc, "k": r["k"], "variant": r["variant"], "after_failed": r.get("after_failed"), "read_k": r.get("read_k")}
             short = {"scenario": sc["id"], "k": r["k"], "variant": r["variant"], "fired": r["fired"], "raised": r["raised"],
-                     "after_failed": r.get("after_failed")}
-            ctx.case({"sc": sc["id"], "k": r["k"], "v": r["variant"], "f": sc["frame1"], "p": sc["partition_on"], "af": r.get("after_failed")},
-                     trivial=(r["k"] is None and not r.get("after_failed")))
+                     "after_failed": r.get("after_failed"), "read_k": r.get("read_k")}
+            ctx.case({"sc": sc["id"], "k": r["k"], "v": r["variant"], "f": sc["frame1"], "p": sc["partition_on"], "af": r.get("after_failed"), "rk": r.get("read_k")},
+                     trivial=(r["k"] is None and not r.get("after_failed") and r.get("read_k") is None))
+            if r.get("read_k") is not None:
+                ctx.count("fault_kind", "%s/%s" % (r["fired"][1] if r["fired"] else "not-reached", r["variant"]))
+                ctx.count("read_side_fault_outcome", "%s/%s" % ("raised" if r["raised"] else "returned", r["read"]))
+                if r["fired"] is None:
+                    ctx.obligation("fault injector reached read-side call %s of scenario %s" % (r["read_k"], sc["id"]), False, "the k-th read-side call was never issued")
             if r.get("after_failed"):
                 ctx.count("fault_sequence", "failed append, then %s" % ("fault-free retry" if r["k"] is None else "retry failing again"))
             if r["k"] is not None:
@@ -493,7 +505,7 @@ def replay(rep):
     sc = case["scenario"]
     tmp = tempfile.mkdtemp(prefix="verif-C19-replay-", dir="/tmp")
     try:
-        res = run_scenario((sc, tmp, "quick", (case["k"], case["variant"], case.get("after_failed"))))
+        res = run_scenario((sc, tmp, "quick", (case["k"], case["variant"], case.get("after_failed"), case.get("read_k"))))
         if res["error"]:
             print(res["error"])
             return 1
@@ -506,7 +518,7 @@ def replay(rep):
             sc["partition_on"], res["nold"], len(res["refs"]), res["nnew"], sc["new_parts"]))
         if r.get("after_failed"):
             print("first an append failing in call %s (%s); judged is the retry:" % tuple(r["after_failed"]))
-        print("fault: k=%s variant=%s fired=%s" % (r["k"], r["variant"], r["fired"]))
+        print("fault: k=%s read-side k=%s variant=%s fired=%s" % (r["k"], r.get("read_k"), r["variant"], r["fired"]))
         print("append: %s" % ("raised " + r["raised"] if r["raised"] else "returned normally"))
         print("fresh open reads: %s %s   (phase: %s)" % (r["read"], r.get("read_detail", ""), phase))
         for sym, text in problems:
